@@ -9,6 +9,7 @@ import (
 	"fmt"
 	"sync"
 	"testing"
+	"time"
 
 	tls "github.com/refraction-networking/utls"
 	"verifharness/mon"
@@ -303,6 +304,91 @@ func TestC35(t *testing.T) {
 		r.Case(fmt.Sprintf("forge|%s|%04x", id.Str(), suite), true)
 	}
 	r.Count("forged_resumptions", int64(forged))
+	// ---- automatically managed keys under a logical clock ----
+	// Documented behaviour (Config.SessionTicketKey): without configured keys the server
+	// rotates its ticket key every day and drops keys after seven days.  Histories of
+	// clock steps and seal/open calls; the oracle only asserts the two regions every
+	// reading of that sentence agrees on: a ticket opens while it is younger than 6 days
+	// (its key was at most one day old when it sealed), and never opens once it is 8 days
+	// old (by then a rotation that saw the key older than 7 days has certainly happened).
+	{
+		hist := mon.Pick(120, 4000)
+		day := 24 * time.Hour
+		for hi := 0; hi < hist; hi++ {
+			rg := Sub("C35auto", hi)
+			now := peer.FixedTime()
+			cfg := &tls.Config{Time: func() time.Time { return now }}
+			type sealed struct {
+				ticket []byte
+				want   []byte
+				at     time.Time
+			}
+			var tickets []sealed
+			var trace []string
+			steps := 4 + rg.Intn(20)
+			for k := 0; k < steps; k++ {
+				var d time.Duration
+				switch rg.Intn(8) {
+				case 0:
+					d = time.Duration(rg.Intn(3600)) * time.Second
+				case 1, 2, 3:
+					d = day + time.Duration(rg.Intn(7200))*time.Second // the daily rhythm that makes keys expire together later
+				case 4:
+					d = time.Duration(1+rg.Intn(47)) * time.Hour
+				case 5:
+					d = time.Duration(2+rg.Intn(5)) * day
+				case 6:
+					d = time.Duration(8+rg.Intn(30)) * day // idle gap: several keys expire at once
+				case 7:
+					d = 0
+				}
+				now = now.Add(d)
+				trace = append(trace, fmt.Sprintf("+%s", d))
+				if rg.Intn(4) > 0 {
+					st := base[rg.Intn(len(base))]
+					want, _ := st.Bytes()
+					tk, err := cfg.EncryptTicket(tls.ConnectionState{}, st)
+					if err != nil {
+						r.Violation(map[string]string{"kind": "auto_encrypt_error"}, err.Error(), map[string]any{"history": hi, "trace": trace})
+						continue
+					}
+					tickets = append(tickets, sealed{tk, want, now})
+					trace = append(trace, "seal")
+				}
+				// open every ticket sealed so far
+				for ti, tk := range tickets {
+					age := now.Sub(tk.at)
+					got, err := cfg.DecryptTicket(tk.ticket, tls.ConnectionState{})
+					opened := err == nil && got != nil
+					r.Count("auto_key_opens_tried", 1)
+					switch {
+					case age < 6*day:
+						r.Count("auto_key_young_tickets", 1)
+						if !opened {
+							r.Violation(map[string]string{"kind": "auto_key_young_ticket_rejected"}, fmt.Sprintf("history %d: a ticket sealed %s ago under an automatically managed key no longer opens (%v)", hi, age, err),
+								map[string]any{"history": hi, "trace": trace, "ticket_index": ti})
+						} else if gb, _ := got.Bytes(); !bytes.Equal(gb, tk.want) {
+							r.Violation(map[string]string{"kind": "auto_key_roundtrip_differs"}, fmt.Sprintf("history %d: state differs", hi), map[string]any{"history": hi, "trace": trace})
+						}
+					case age >= 8*day:
+						r.Count("auto_key_expired_tickets", 1)
+						if opened {
+							r.Violation(map[string]string{"kind": "auto_key_expired_ticket_opens"}, fmt.Sprintf("history %d: a ticket sealed %s ago still opens although ticket keys are dropped after seven days", hi, age),
+								map[string]any{"history": hi, "trace": trace, "ticket_index": ti})
+						}
+					default:
+						r.Count("auto_key_unspecified_age", 1)
+					}
+				}
+			}
+			r.Case(fmt.Sprintf("auto|%d steps|%d tickets", steps, len(tickets)), len(tickets) > 1)
+			if hi < 2 {
+				r.Sample(map[string]any{"auto_key_history": trace})
+			}
+		}
+		r.Floor("auto_key_expired_tickets", 200)
+		r.Floor("auto_key_young_tickets", 200)
+	}
 	r.Floor("forged_resumptions", int64(rounds/2))
 	r.Floor("mutations_tried", 1000)
 }
